@@ -145,4 +145,21 @@ theorem report_underline_shape {src : Bytes} {sp : Span} {line ul : Bytes}
       subst h1
       exact ⟨_, h2.symm, (underlinePad_spec _ _).1, (underlinePad_spec _ _).2⟩
 
+/-- **expand_is_the_code.**  The model's `Span.expand` IS the function the translator produces from
+the statements of `Span::expand` in utils.rs on this run (`Generated.spanExpand`, one record update
+per Rust assignment, in order).  A change to which end or which field `expand` copies changes the
+generated function and this theorem stops checking. -/
+theorem expand_is_the_code (a b : Span) : a.expand b = Generated.spanExpand a b := rfl
+
+/-- hence `expand_chain_consistent` speaks about the translated code itself -/
+theorem generated_expand_chain_consistent {src : Bytes} (bs : List Span) (a : Span) (ha : Consistent src a)
+    (h : ∀ b ∈ bs, Consistent src b ∧ a.rangeStart ≤ b.rangeEnd) :
+    Consistent src (bs.foldl Generated.spanExpand a) := by
+  have : (fun x y => Generated.spanExpand x y) = Span.expand := by
+    funext x y; exact (expand_is_the_code x y).symm
+  have h2 : bs.foldl Generated.spanExpand a = bs.foldl Span.expand a := by
+    show bs.foldl (fun x y => Generated.spanExpand x y) a = _
+    rw [this]
+  rw [h2]; exact expand_chain_consistent bs a ha h
+
 end Tera.C12
